@@ -146,11 +146,18 @@ def probe_repeated(nsub, case=0):
         lambda: (ex.stepper.KortewegDeVries(1, 20.0, 16, 0.01, dealiasing_fraction=1.0), 1, 1, 16, 0.01),
         lambda: (ex.stepper.generic.GeneralConvectionStepper(1, 3.0, 16, 0.01, linear_coefficients=(0.0, -0.4, 0.02), dealiasing_fraction=1.0), 1, 1, 16, 0.01),
         lambda: (ex.stepper.KortewegDeVries(2, 20.0, 8, 0.01, single_channel=True, dealiasing_fraction=1.0), 1, 2, 8, 0.01),
+        # cases 10-12: steppers whose Fourier step is not diagonal — the wave stepper (two coupled channels, mean height
+        # drifting with the mean velocity; white noise has a non-zero mean) on odd grids, and a forced stepper inside
+        lambda: (ex.stepper.Wave(1, 3.0, 9, 0.07, speed_of_sound=0.8), 2, 1, 9, 0.07),
+        lambda: (ex.stepper.Wave(2, 5.0, 7, 0.11, speed_of_sound=1.3), 2, 2, 7, 0.11),
+        lambda: (ex.stepper.Wave(3, 2.0, 5, 0.05), 2, 3, 5, 0.05),
     ][case]
     st, C, D, N, dt = mk()
     rep = ex.RepeatedStepper(st, nsub)
     u0 = jnp.asarray(rng.normal(size=(C,) + (N,) * D) * 0.3) if case else jnp.sin(2 * jnp.pi * jnp.arange(15) / 15)[None, :]
-    if case >= 7:
+    if case >= 10:
+        u0 = u0 + jnp.asarray([0.4, 0.9]).reshape((2,) + (1,) * D)      # mean height and mean velocity well away from zero
+    if 7 <= case < 10:
         kk = np.abs(np.fft.fftfreq(N, 1 / N))
         keep = np.ones((N,) * D, dtype=bool)
         for d_ in range(D):
@@ -259,11 +266,11 @@ def oracle(ctx, deep):
                 fails.append({"key": f"C14:rollout:include_init={incl}", "what": f"rollout/repeat differ from the naive loop at n={n}, include_init={incl}",
                               "probe": "naive", "args": {"n": n, "incl": incl}, "observed": r})
     for nsub in ([1, 3] if not deep else [1, 2, 3, 5]):
-        for case in range(10):
+        for case in range(13):
             r = probe_repeated(nsub, case)
             ctx.count(("oracle_repeated", nsub, case))
             if not r["ok"]:
-                fails.append({"key": "C14:repeated", "what": f"RepeatedStepper({r['stepper']} D={r['D']} N={r['N']}, {nsub}) differs from {nsub} inner steps by {r['err']:.2e} on a {'white-noise' if case < 7 else 'Nyquist-free'} state",
+                fails.append({"key": "C14:repeated", "what": f"RepeatedStepper({r['stepper']} D={r['D']} N={r['N']}, {nsub}) differs from {nsub} inner steps by {r['err']:.2e} on a {'white-noise' if (case < 7 or case >= 10) else 'Nyquist-free'} state",
                               "probe": "repeated", "args": {"nsub": nsub, "case": case}, "observed": r})
                 break
     r = probe_forced()
